@@ -27,6 +27,13 @@ impl Exec {
         }
         m.adjust_debt(1e9);
         let d = m.allocation_debt();
+        // every credit corresponds to a unit of work on one of at most a few thousand objects and the
+        // harness never adjusts by less than -5: a debt that stays far below the adjustment means a
+        // work counter wrapped around (release builds do not panic on the underflow)
+        if !(d >= 5e8) {
+            self.viol("C10", "M-metrics", format!("adjust_debt(1e9) on an arena holding {} allocations left allocation_debt at {}", m.total_gc_count(), d));
+            return;
+        }
         m.adjust_debt(-(d - target));
         self.mon[a as usize].debt_forced = true;
     }
@@ -73,6 +80,9 @@ impl Exec {
         };
 
         let n_objs = self.w.arenas[ai].live_blocks as u64;
+        // fault plan: a trace-event position, or (from DFAULT_BASE up) the index of a destructor
+        let (fault_at, dfault) = if fault_at >= DFAULT_BASE { (0, fault_at - DFAULT_BASE + 1) } else { (fault_at, 0) };
+        vharness::token::arm_destructor_panic(dfault);
         fault::begin_call(fault_at as u64, 0, 1000 * (n_objs + 10));
         let old = track::set_ctx(track::CTX_COLLECT | a as u32);
         let arena = self.arenas[ai].as_mut().unwrap();
@@ -111,6 +121,7 @@ impl Exec {
             },
         }));
         track::set_ctx(old);
+        vharness::token::disarm_destructor_panic();
         let (events, _fired) = fault::end_call();
         self.stats.add("trace_events", events);
         *self.op_events.entry(self.op_index).or_insert(0) += events;
@@ -118,7 +129,7 @@ impl Exec {
             Ok(x) => x,
             Err(_) => {
                 let site = if matches!(op, COp::StartSweeping | COp::MarkDebtSweep) { "start_sweeping/collect" } else { "collect" };
-                if !self.classify_panic(&format!("{} {:?}", site, op), fault_at > 0) {
+                if !self.classify_panic(&format!("{} {:?}", site, op), fault_at > 0 || dfault > 0) {
                     self.drain_events(a);
                     return;
                 }
@@ -350,6 +361,12 @@ impl Exec {
                 expect_blocks += 1;
                 continue;
             }
+            if o.drop_panicked && !wt.contains_key(&id) {
+                // its destructor was made to panic while it was being released: the block is never
+                // returned (and stays counted); nothing more is required of it
+                expect_blocks += 1;
+                continue;
+            }
             // unreachable and still allocated: must be a destructed shell that a reachable weak refers to
             if o.kind.has_token() && o.drops == 0 {
                 msgs.push(("C02", format!("unreachable object {} ({}) not destructed after two finish_cycle calls", id, o.kind.name())));
@@ -380,15 +397,23 @@ impl Exec {
     }
 
     pub fn do_drop_arena(&mut self, a: u8) {
+        self.do_drop_arena_f(a, 0)
+    }
+
+    /// `dfault` > 0: the dfault-th destructor run by the drop panics (the drop resumes with the
+    /// remaining objects; the panicking object's block is never released)
+    pub fn do_drop_arena_f(&mut self, a: u8, dfault: u32) {
         let ai = a as usize;
         let Some(arena) = self.arenas[ai].take() else { return };
         let frame = self.frame_snapshot(a);
         let phase = ph(arena.collection_phase());
         let old = track::set_ctx(track::CTX_ARENA_DROP | a as u32);
+        vharness::token::arm_destructor_panic(dfault);
         let r = catch_unwind(AssertUnwindSafe(move || drop(arena)));
         track::set_ctx(old);
+        vharness::token::disarm_destructor_panic();
         if r.is_err() {
-            self.classify_panic("arena drop", false);
+            self.classify_panic("arena drop", dfault > 0);
         }
         self.drain_events(a);
         self.stats.inc(&format!("arena_dropped_in_{:?}", phase));
@@ -398,22 +423,30 @@ impl Exec {
             if o.kind.has_token() && o.drops != 1 {
                 msgs.push(format!("object {} ({}) destructed {} times over the arena's life", o.id, o.kind.name(), o.drops));
             }
-            if o.registered && !o.freed && track::enabled() {
+            if o.registered && !o.freed && track::enabled() && !o.drop_panicked {
                 msgs.push(format!("allocation of object {} ({}) not returned to the allocator after arena drop", o.id, o.kind.name()));
             }
         }
+        // blocks of objects whose destructor panicked are never released (and stay counted)
+        let leaked = self.w.objs.values().filter(|o| o.a == a && o.drop_panicked && !o.freed).count();
+        // (they belong to the arena that is gone, not to a later arena in the same slot)
+        self.w.arenas[ai].live_blocks -= leaked.min(self.w.arenas[ai].live_blocks);
         for m in msgs {
             self.viol("C04", "M-once", m);
         }
         if let Some(m) = self.metrics[ai].clone() {
-            if m.total_gc_count() != 0 {
+            if m.total_gc_count() != leaked {
                 let c = m.total_gc_count();
-                self.viol("C04", "M-once", format!("total_gc_count reads {} after the arena was dropped", c));
+                self.viol("C04", "M-once", format!("total_gc_count reads {} after the arena was dropped ({} blocks leaked by panicking destructors)", c, leaked));
             }
             let d = m.allocation_debt();
-            if d != 0.0 {
+            if d != 0.0 && leaked == 0 {
                 self.viol("C10", "M-metrics", format!("allocation_debt reads {} after the arena was dropped", d));
             }
+        }
+        // blocks leaked by panicking destructors are gone for good as far as the model is concerned
+        for o in self.w.objs.values_mut().filter(|o| o.a == a && o.drop_panicked && !o.freed) {
+            o.freed = true;
         }
         self.w.arenas[ai].exists = false;
         // handles of this arena now refer to a dead arena; they stay usable (C14)
